@@ -1,13 +1,13 @@
 #!/bin/bash
 # round-2 mutation prompt for property $1
-P=$1
-WT=/tmp/mut/wt2_$P; OUT=/tmp/mut/out2_$P
+P=$1; R=${ROUND:-2}
+WT=/tmp/mut/wt${R}_$P; OUT=/tmp/mut/out${R}_$P
 git -C /repo worktree add -q --detach $WT HEAD
 cp /repo/python/lsst/daf/butler/version.py $WT/python/lsst/daf/butler/version.py 2>/dev/null
 mkdir -p $OUT
-/venv/bin/python - "$P" <<'PY'
+/venv/bin/python - "$P" "$R" <<'PY'
 import json,sys,glob
-P=sys.argv[1]
+P=sys.argv[1]; R=sys.argv[2]
 for l in open('/verif/properties.jsonl'):
     d=json.loads(l)
     if d['id']==P:
@@ -17,7 +17,7 @@ for l in open('/verif/properties.jsonl'):
             try:
                 j=json.load(open(m)); avoid.append("- "+str(j.get('summary',''))[:200]+" ["+str(j.get('mechanism',''))[:160]+"]")
             except Exception: pass
-        t=open('/verif/tools/mutation_prompt_template.txt').read().replace('__WT__',f'/tmp/mut/wt2_{P}').replace('__OUT__',f'/tmp/mut/out2_{P}').replace('__PROP__',prop).replace('__PID__',P)
+        t=open('/verif/tools/mutation_prompt_template.txt').read().replace('__WT__',f'/tmp/mut/wt{R}_{P}').replace('__OUT__',f'/tmp/mut/out{R}_{P}').replace('__PROP__',prop).replace('__PID__',P)
         t+="\n\nIMPORTANT: an earlier round already produced the following mutations for this property. Yours must be DIFFERENT: use other code sites and other mechanisms (other functions, other branches, other operations of the quantifier), not variations of these:\n"+"\n".join(avoid)+"\n"
-        open(f'/tmp/mut/prompt2_{P}.txt','w').write(t)
+        open(f'/tmp/mut/prompt{R}_{P}.txt','w').write(t)
 PY
